@@ -262,7 +262,7 @@ func TestC18_Deep(t *testing.T) {
 				}
 				c.Case()
 				call := run.Call{API: "search", Expr: "deepresult:" + kind + ":" + strconv.Itoa(n) + ":" + e2}
-				run.Watch(c, "deep", call)
+				run.WatchAs(c, "deep", "custom:c18-deep", nil, call)
 				if msg := c18DeepVerdict(kind, n, e2); msg != "" {
 					c.Fail(t, run.Replay{Check: "deep", Kind: "custom:c18-deep", Calls: []run.Call{call}, Message: fmt.Sprintf("%s nested %d deep, then %s: %s", kind, n, e2, truncate(msg, 400))}, kind)
 					return
